@@ -25,14 +25,17 @@ def Op.viaChildrenSetter : Op → Bool
     state: parent / predecessor / successor setters and their list façades (append, remove), the `<<` and `>>`
     operators, `reorder` -/
 theorem C16_effect_direct (s s' e : G) (op : Op) (hi : Inv s) (hl : op.legal s)
-    (hv : op.viaChildrenSetter = false) (he : effOf s op = some e) (h : step s op = (s', none)) : G.Same s' e := by
-  sorry
+    (hv : op.viaChildrenSetter = false) (he : effOf s op = some e) (h : step s op = (s', none)) : G.Same s' e :=
+  have _ := hl
+  have hv' : viaCS op = false := by rw [← hv]; cases op <;> rfl
+  SameG.of_eq (effect_direct s s' e op hi.wf hv' he h)
 
 /-- … and so have the operations that assign a whole children list: `children = l`, `roots = l`, `//`, `insert`,
     `remove`, `remove_all`, `WBS.remove` -/
 theorem C16_effect_children (s s' e : G) (op : Op) (hi : Inv s) (hl : op.legal s)
-    (hv : op.viaChildrenSetter = true) (he : effOf s op = some e) (h : step s op = (s', none)) : G.Same s' e := by
-  sorry
+    (hv : op.viaChildrenSetter = true) (he : effOf s op = some e) (h : step s op = (s', none)) : G.Same s' e :=
+  have hv' : viaCS op = true := by rw [← hv]; cases op <;> rfl
+  SameG.of_eq (effect_children s s' e op hi hl hv' he h)
 
 /-- `sort`: only the one children list changes; it becomes a stable, ordered (reversed on request) permutation -/
 theorem C16_sort (s : G) (h : Uid) (keys : List (Uid × Int)) (rev : Bool) :
@@ -40,27 +43,35 @@ theorem C16_sort (s : G) (h : Uid) (keys : List (Uid × Int)) (rev : Bool) :
     (step s (.chSort h keys rev)).2 = none ∧
     sortedByB (keyOf keys) rev (s.children h) (s'.children h) = true ∧
     G.Same s' { s with children := upd s.children h (s'.children h) } := by
-  sorry
+  refine ⟨rfl, ?_, ?_⟩
+  · show sortedByB (keyOf keys) rev (s.children h) (upd s.children h (sortBy (keyOf keys) rev (s.children h)) h) = true
+    rw [upd_same]
+    exact sortBy_sorted (keyOf keys) rev (s.children h)
+  · apply SameG.of_eq
+    show ({ s with children := upd s.children h (sortBy (keyOf keys) rev (s.children h)) } : G) =
+      { s with children := upd s.children h (upd s.children h (sortBy (keyOf keys) rev (s.children h)) h) }
+    rw [upd_same]
 
 /-- `move`: accepted ⇒ exactly the fold of single moves, nothing else changes -/
 theorem C16_move (s s' : G) (h : Uid) (ts : List Uid) (b a : Option Uid)
-    (hs : step s (.chMove h ts b a) = (s', none)) : G.Same s' (effMove s h ts b a) := by
-  sorry
+    (hs : step s (.chMove h ts b a) = (s', none)) : G.Same s' (effMove s h ts b a) :=
+  SameG.of_eq (chMove_ok_eq s s' h ts b a hs)
 
 /-- one move puts the task immediately before / after the anchor and keeps the relative order of the others -/
 theorem C16_moveOne (l : List Uid) (t : Uid) (b a : Option Uid) (hn : l.Nodup) (ht : t ∈ l)
     (hb : ∀ x, b = some x → x ∈ l ∧ x ≠ t) (ha : ∀ x, a = some x → x ∈ l ∧ x ≠ t) (hab : b.isSome ≠ a.isSome) :
     (moveOne l t b a).erase t = l.erase t ∧
     (∀ x, b = some x → ∃ pre post, moveOne l t b a = pre ++ t :: x :: post) ∧
-    (∀ x, a = some x → ∃ pre post, moveOne l t b a = pre ++ x :: t :: post) := by
-  sorry
+    (∀ x, a = some x → ∃ pre post, moveOne l t b a = pre ++ x :: t :: post) :=
+  moveOne_spec l t b a hn ht hb ha hab
 
 /-- frame: an accepted call changes no relation of a task that is neither named in the call, nor a child of the
     edited holder, nor below a named task, nor a former parent / link partner of a named task -/
 theorem C16_frame_links (s s' : G) (t : Uid) (l : List Uid) (u : Uid) (hi : Inv s)
     (h : step s (.setPreds t l) = (s', none)) (hu : u ≠ t) (hl : u ∉ l) (ho : u ∉ s.preds t) :
     s'.preds u = s.preds u ∧ s'.succs u = s.succs u ∧ s'.parent u = s.parent u ∧ s'.children u = s.children u ∧
-    s'.owner u = s.owner u := by
-  sorry
+    s'.owner u = s.owner u :=
+  have _ := hi
+  frame_links s s' t l u h hu hl ho
 
 end Pj
